@@ -143,6 +143,12 @@ func (e *Engine) verifyCase(fn *ssa.Function, con *Contract, ci int, sc *SpecCas
 		old.ghost[g] = cur
 		st.ghost[g] = Add(cur, Num(1))
 	}
+	for g, val := range con.GhostSet {
+		if _, have := old.ghost[g]; !have {
+			old.ghost[g] = e.ghostInit(st, g)
+		}
+		st.ghost[g] = Num(val)
+	}
 	if ci == 0 {
 		names := make([]string, len(fn.Params))
 		for i, p := range fn.Params {
@@ -277,7 +283,7 @@ func (e *Engine) checkFrame(fr *Frame, con *Contract, o Outcome, old *State, key
 	}
 	// ghost frame
 	for k, nv := range o.st.ghost {
-		if strings.HasPrefix(k, "alloc.") {
+		if strings.HasPrefix(k, "alloc.") || strings.HasPrefix(k, "rangecount") {
 			continue
 		}
 		ov, ok := old.ghost[k]
@@ -292,6 +298,9 @@ func (e *Engine) checkFrame(fr *Frame, con *Contract, o Outcome, old *State, key
 			if g == k {
 				listed = true
 			}
+		}
+		if _, isSet := con.GhostSet[k]; isSet {
+			listed = true
 		}
 		for _, m := range con.Modifies {
 			if f, ok := m.(*EField); ok {
